@@ -54,10 +54,14 @@ def basic_calls(cvxopt):
     ggp = matrix([0., 0., math.log(2.0)])
     ARGS['gp'] = (solvers.gp, [Kgp, Fgp, ggp], {})
     def opsolve(c_, G_, h_, **kw):
-        x = M.variable(2, 'x')
-        p = M.op(M.dot(c_, x), [G_ * x <= h_])
+        # several separate inequality constraints, a piecewise-linear constraint and a second variable: the matrix form handed to the solver
+        # is assembled from all of them (row order, epigraph variables)
+        x = M.variable(2, 'x'); y = M.variable(1, 'y')
+        cons = [G_ * x <= h_, M.max(abs(x)) <= y, x[0] <= 10.0, x[1] <= 10.0, y <= 50.0, x[0] + x[1] >= -40.0]
+        p = M.op(M.dot(c_, x) + y, cons)
         p.solve(**kw)
-        return {'status': p.status, 'x': x.value, 'primal objective': p.objective.value()[0]}
+        return {'status': p.status, 'x': x.value, 'y': y.value, 'primal objective': (p.objective.value()[0] if p.objective.value() is not None else None),
+                'multipliers': [(+c.multiplier.value if c.multiplier.value is not None else None) for c in cons]}
     ARGS['op.solve'] = (opsolve, [c, G, h], {})
     return ARGS
 
@@ -221,9 +225,9 @@ def planted_qp_few(rng):
     for _ in range(200):
         n = rng.randint(3, 6)
         dims = rng.choice([{'l': rng.randint(0, 2), 'q': [], 's': []}, {'l': rng.randint(0, 1), 'q': [rng.randint(2, 3)], 's': []},
-                           {'l': 0, 'q': [], 's': [rng.randint(1, 2)]}, {'l': 1, 'q': [2], 's': [1]}])
+                           {'l': 0, 'q': [], 's': [rng.randint(1, 2)]}, {'l': 1, 'q': [2], 's': [1]}, {'l': 0, 'q': [], 's': []}])
         N = cdim(dims); packed = dims['l'] + sum(dims['q']) + sum(k * (k + 1) // 2 for k in dims['s'])
-        p = rng.randint(0, 1)
+        p = rng.randint(0, 1) if N else rng.randint(1, 2)          # (no inequalities at all: the direct solve of coneqp, with equality constraints)
         if packed + p >= n: continue
         G = [sym_vector(rng, dims) for _ in range(n)]
         A = [[rint(rng) for _ in range(p)] for _ in range(n)]
